@@ -33,8 +33,9 @@ ASSUMPTIONS = [
     'identifiers are unique across the three lexicons (prefixed)',
     'explicit expand arguments name installed lexicons',
     'placeholders are identified by their ILI; hypernym_paths is not compared when two lexicons '
-    'are selected (wn then distinguishes placeholders of one ILI by the lexicon of the synset '
-    'they were created from, which the statement leaves open)',
+    'are selected, or in default mode from a lexicon that has an extension (wn then distinguishes '
+    'placeholders of one ILI by the lexicon of the synset they were created from, which the '
+    'statement leaves open)',
 ]
 
 ILIS = ['i1', 'i2', 'i3', 'i4', 'i5', 'i6', '', '', 'in']
@@ -323,6 +324,9 @@ def oracle(case):
         # placeholders of one ILI by the lexicon of the synset they were created from, so
         # "simple" is not decidable from ILIs alone: not compared there)
         if case['selection'] is not None and len(view.sel) > 1:
+            continue
+        if case['selection'] is None and len(view.scope(rss.owner)) > 1:
+            # default mode: a lexicon and its extension act like two selected lexicons
             continue
         exp_paths = sorted(reference_paths(view, rss, names))
         got_paths = sorted([_kstr(key_of(x)) for x in path] for path in ss.hypernym_paths())
